@@ -90,7 +90,7 @@ def c12_2(cx):
     cx.only_if(sa, si, Cmp(r"AtomicRevision::load\(\$1\.verified_at\)$", "==", r"current_revision\(\$2\)$"), "iteration state is carried over only within the current revision")
 
 
-@ob("C12.3", ["C12", "C18", "C20", "C13", "C22"], "reusing a provisional memo whose cycle heads are not final (or were finalised in another iteration/revision) returns an intermediate value as the result", kind="ONLYIF")
+@ob("C12.3", ["C12", "C18", "C20", "C13", "C22", "C14"], "reusing a provisional memo whose cycle heads are not final (or were finalised in another iteration/revision) returns an intermediate value as the result", kind="ONLYIF")
 def c12_3(cx):
     """validate_provisional returns true only if every cycle head is Final with verified_at == the memo's verified_at and iteration == the recorded iteration (and then marks verified_final); validate_same_iteration returns true only if memo verified_at == current revision and every head is claimed as Cycle with the same verified_at and iteration (single own head: the head is on this thread's stack)."""
     v = cx.fn(r"^function::maybe_changed_after::validate_provisional$")
@@ -107,6 +107,8 @@ def c12_3(cx):
     cx.sites(falses, 3, "`return false` sites in validate_provisional")
     eng = OnlyIf(cx.facts, v)
     nx = cx.one_call(v, r"^std::iter::Iterator::next$", "next head")
+    # every head counts - also the memo's own key: a placeholder whose only head is itself must not validate vacuously
+    cx.flow(v, cx.arg(nx, 0), [r"^<CycleHeads as std::iter::IntoIterator>::into_iter\(\$5\)$"], [r"iter_not_eq|filter|skip|take"], "validate_provisional examines ALL cycle heads of the memo (including itself)", nx)
     va = Cmp(r"@Final\.verified_at$|Final.*verified_at", "==", r"^\$4$", desc="head.verified_at == memo.verified_at")
     it = Cmp(r"@Final\.iteration$|Final.*iteration", "==", r"AtomicIterationStamp::load\(", desc="head iteration == recorded iteration")
     fin = VariantIn(r"and_then\(.*\)@Some\.0$|provisional_status\(.*\)@Some\.0$", {"Final"}, desc="head status is Final")
@@ -214,7 +216,7 @@ def c15_2(cx):
     st = [d for d in m.full_defs_named("iteration")] if hasattr(m, "full_defs_named") else []
 
 
-@ob("C12.5", ["C12", "C18", "C01", "C13"], "a cycle query whose stored origin misses a leaf dependency of a provisional callee (or keeps the provisional callee itself) is later validated against the wrong inputs: a stale fixpoint result is reused", kind="MUSTCALL+TABLE (flattening visits every edge; sibling impls)")
+@ob("C12.5", ["C12", "C18", "C01", "C13", "C10"], "a cycle query whose stored origin misses a leaf dependency of a provisional callee (or keeps the provisional callee itself) is later validated against the wrong inputs: a stale fixpoint result is reused", kind="MUSTCALL+TABLE (flattening visits every edge; sibling impls)")
 def c12_5(cx):
     """complete_cycle_query stores flatten(input_outputs) - not the direct edges - as the origin; flatten_cycle_dependencies visits every direct edge (inputs through the owning ingredient's flatten_cycle_head_dependencies with the edge's own key, outputs verbatim); the ingredient impls agree: leaves insert their own input edge, functions delegate with (self, key of id, C::CYCLE_STRATEGY); the function walker returns without contributing only for a missing memo or an already visited key, inserts the key itself iff the memo is final, copies every input of cycle-handling callees and recurses into every input of plain callees."""
     c = cx.fn(EXE + r"complete_cycle_query$")
